@@ -80,6 +80,38 @@ Fresh(La) == NormSize(La, Preset(La))                                  \* the st
 \* a configuration / a binary denotes the registers that exist; whatever an object holds for the others is not transported
 Restrict(La, b) == IF La.hascond THEN [r \in DOMAIN b |-> IF r \in Active(La, b) THEN b[r] ELSE Preset(La)[r]] ELSE b
 
+\* ------------------------------------------------------------------ control bit-fields and the size bit-field: classes of writes
+\* A CONTROL bit-field decides which registers exist (cond.c / cond.f of some register: XMCD optionSize, option-word OptionSize /
+\* AcTimingMode); the SIZE bit-field announces the size of the binary (XMCD header.configurationBlockSize).  Both are ordinary
+\* in-range bit-fields of the template.  Whatever a configuration says about them - a size that is right, too small or too large,
+\* together with a control value that selects fewer or more registers than before - the object that is built consists of the
+\* registers the control bit-field selects and ANNOUNCES ITS OWN REAL SIZE (NormSize in every action that builds an object): "the
+\* exported header describes the exported block".  The case space of these writes:
+SizeClasses == <<"eq", "lt", "gt">>             \* announced size  = / < / >  the size of the registers that exist afterwards
+CtrlLevels == <<"min", "mid", "max">>           \* none / some / all of the conditional registers exist afterwards
+SizeCtrlCases == {<<s, c>> : s \in ToSet(SizeClasses), c \in ToSet(CtrlLevels)}
+CondRegs(La) == {r \in LeafSet(La) : Reg(La, r).cond.c # 0}
+CtrlFields(La) == {<<Reg(La, r).cond.c, Reg(La, r).cond.f>> : r \in CondRegs(La)}
+IsCtrl(La, r, f) == La.hascond /\ <<r, f>> \in CtrlFields(La)
+IsSizeFld(La, r, f) == La.sizefld.r # 0 /\ r = La.sizefld.r /\ f = La.sizefld.f
+SizeClass(La, b, v) == IF v = ExpSize(La, b) THEN "eq" ELSE IF v < ExpSize(La, b) THEN "lt" ELSE "gt"
+CtrlLevel(La, b) == LET n == Cardinality(CondRegs(La) \cap Active(La, b))
+                    IN IF n = Cardinality(CondRegs(La)) THEN "max" ELSE IF n = 0 THEN "min" ELSE "mid"      \* (no conditional register: "max")
+\* boundary values of a control bit-field: around every threshold that the condition of some register names, and both ends of the range
+CtrlMenu(La, c, f) ==
+  LET ks == {Reg(La, r).cond.k : r \in {x \in CondRegs(La) : Reg(La, x).cond.c = c /\ Reg(La, x).cond.f = f}}
+      top == 2 ^ Fld(La, c, f).width - 1
+  IN {v \in UNION {{k - 1, k, k + 1} : k \in ks} \cup {0, top} : v >= 0 /\ v <= top}
+RECURSIVE BitSeqFrom(_, _)
+BitSeqFrom(n, i) == IF n = 0 THEN <<>> ELSE IF n % 2 = 1 THEN <<i>> \o BitSeqFrom(n \div 2, i + 1) ELSE BitSeqFrom(n \div 2, i + 1)
+BitSeq(n) == BitSeqFrom(n, 0)                                               \* a number as the bit list of the traces
+\* the levels that the boundary values of the control bit-fields can select on this layout (everything else at its preset)
+LevelsPossible(La) ==
+  IF ~La.hascond THEN {"max"}
+  ELSE UNION {{CtrlLevel(La, SetFieldBits(La, Preset(La), t[1], t[2], ToSet(BitSeq(v)), TRUE)) : v \in CtrlMenu(La, t[1], t[2])} : t \in CtrlFields(La)}
+\* the cases of SizeCtrlCases that exist on this layout (size class "-": the area has no size bit-field)
+CasesPossible(La) == {<<s, c>> : s \in (IF La.sizefld.r = 0 THEN {"-"} ELSE ToSet(SizeClasses)), c \in LevelsPossible(La)}
+
 \* ------------------------------------------------------------------ writes: sequence of [r, f, v]  (f = 0: whole register / group through
 \* its configuration view; f > 0: bit-field f of leaf r)
 \* A group with ALTERNATIVE WIDTHS takes a value that fits into a narrower alternative width aw as a value of that width:
@@ -108,6 +140,12 @@ Apply(La, b, ws) ==
                  ELSE IF w.aw = 0 THEN SetView(La, b, w.r, V, FALSE) ELSE SetViewAlt(La, b, w.r, V, w.aw)
        IN Apply(La, nb, Tail(ws))
 Touched(ws) == {ws[i].r : i \in {j \in DOMAIN ws : ws[j].f > 0}}
+\* the case (size class, control level) of a configuration ws that leads to state b2: the size it announces (its last write to the size
+\* bit-field; "-" when it has none) against the real size of b2, and how many conditional registers exist in b2
+SizeWrites(La, ws) == {i \in DOMAIN ws : IsSizeFld(La, ws[i].r, ws[i].f)}
+WrittenSize(La, ws) == LET i == CHOOSE i \in SizeWrites(La, ws) : \A j \in SizeWrites(La, ws) : j <= i IN BitsToInt(ToSet(ws[i].v))
+TouchesCtrl(La, ws) == \E i \in DOMAIN ws : IsCtrl(La, ws[i].r, ws[i].f)
+CaseOfWrite(La, ws, b2) == <<IF SizeWrites(La, ws) = {} THEN "-" ELSE SizeClass(La, b2, WrittenSize(La, ws)), CtrlLevel(La, b2)>>
 WriteFits(La, w) == IF w.f > 0 THEN Fits(La, w.r, w.f, ToSet(w.v))
                     ELSE \A i \in ToSet(w.v) : i < (IF w.aw = 0 THEN W(La, w.r) ELSE w.aw)
 
